@@ -89,6 +89,7 @@ unsafe impl GlobalAlloc for Counting {
 static CURRENT: Mutex<([u8; 4 << 20], usize)> = Mutex::new(([0u8; 4 << 20], 0));
 static CRASH_FILE: Mutex<Option<std::fs::File>> = Mutex::new(None);
 static CASE_STARTED_MS: AtomicUsize = AtomicUsize::new(0);
+static CASE_BYTES: AtomicUsize = AtomicUsize::new(0);
 
 fn set_current(s: &str) {
     if let Ok(mut c) = CURRENT.lock() {
@@ -125,9 +126,14 @@ const CASE_LIMIT_WALL_MS: usize = 300_000;
 fn start_watchdog() {
     std::thread::spawn(|| {
         let mut watch = CaseWatch::new();
+        // (VERIF_CASE_CPU_MS: self-test knob for finding slow cases)
+        let cpu_limit = std::env::var("VERIF_CASE_CPU_MS").ok().and_then(|v| v.parse().ok()).unwrap_or(CASE_LIMIT_CPU_MS);
         loop {
             std::thread::sleep(std::time::Duration::from_millis(250));
-            if watch.over(CASE_STARTED_MS.load(Ordering::Relaxed), now_ms(), CASE_LIMIT_CPU_MS, CASE_LIMIT_WALL_MS) {
+            // "without bound relative to the input size": the limits grow with the input (the debug-built
+            // protobuf reader needs ~10 us per octet: 1 MiB encodings of the seeded zoo's big lists take 10 s)
+            let bytes = CASE_BYTES.load(Ordering::Relaxed);
+            if watch.over(CASE_STARTED_MS.load(Ordering::Relaxed), now_ms(), cpu_limit + bytes / 10, CASE_LIMIT_WALL_MS + bytes) {
                 dump_current("timeout");
                 std::process::exit(3);
             }
@@ -205,6 +211,7 @@ fn beyond_flipped(bytes: &[u8], bit_len: usize) -> Vec<u8> {
 
 pub fn check_case(zoo: &Zoo, c: &Case) -> Result<Outcome, Fail> {
     set_current(&c.to_json().to_string());
+    CASE_BYTES.store(c.bytes.len(), Ordering::Relaxed);
     CASE_STARTED_MS.store(now_ms(), Ordering::Relaxed);
     let r = check_case_inner(zoo, c);
     CASE_STARTED_MS.store(0, Ordering::Relaxed);
@@ -498,7 +505,7 @@ fn random_bytes_strategy() -> BoxedStrategy<(Vec<u8>, usize)> {
         .boxed()
 }
 
-const RULE: &str = "targets: UperReader::read::<T> and ProtobufReader::read::<T> for every type of the compiled zoo, and the DER reader primitives (identifier, length, boolean, integer_i64/u64, Integer<T>/Boolean through BasicReader). Inputs (proptest): (a) random byte strings (0..64 bytes, random / 00 / FF / boundary fills, and hostile self-delimiting numbers - long-form normally-small numbers, length-prefixed integers with k x FF, fragment headers - behind 0..23 random bits) with a random declared bit length; (a') for the DER readers also TLV-shaped input: identifier octet, a length in every form (short, 0x81..0x89 with small / huge / maximal values, indefinite, 0xFF) and fewer content octets than announced; (b) valid encodings of generated values with 1..3 faults from {truncate to a bit, flip a bit, insert / delete / overwrite a byte with a boundary value, duplicate a chunk}. Oracle per case: no panic; on Ok position <= declared length and identical result when every bit beyond the declared length is flipped and bytes are appended (over-read detector); bits_remaining() callable afterwards; peak allocation <= 64 MiB + 64 KiB x input bytes (counting global allocator); a case using > 20 s of CPU time (or 300 s of wall clock) stops the worker and is confirmed 3x in isolation before it is reported. Non-trivial: the decoder consumed >= 8 bits, or the input is a mutated valid encoding; distinct = hash of (target, type, bytes, bit_len).";
+const RULE: &str = "targets: UperReader::read::<T> and ProtobufReader::read::<T> for every type of the compiled zoo, and the DER reader primitives (identifier, length, boolean, integer_i64/u64, Integer<T>/Boolean through BasicReader). Inputs (proptest): (a) random byte strings (0..64 bytes, random / 00 / FF / boundary fills, and hostile self-delimiting numbers - long-form normally-small numbers, length-prefixed integers with k x FF, fragment headers - behind 0..23 random bits) with a random declared bit length; (a') for the DER readers also TLV-shaped input: identifier octet, a length in every form (short, 0x81..0x89 with small / huge / maximal values, indefinite, 0xFF) and fewer content octets than announced; (b) valid encodings of generated values with 1..3 faults from {truncate to a bit, flip a bit, insert / delete / overwrite a byte with a boundary value, duplicate a chunk}. Oracle per case: no panic; on Ok position <= declared length and identical result when every bit beyond the declared length is flipped and bytes are appended (over-read detector); bits_remaining() callable afterwards; peak allocation <= 64 MiB + 64 KiB x input bytes (counting global allocator); a case using > 20 s + 0.1 ms per input octet of CPU time (or 300 s + 1 ms per octet of wall clock) stops the worker and is confirmed 3x in isolation before it is reported. Non-trivial: the decoder consumed >= 8 bits, or the input is a mutated valid encoding; distinct = hash of (target, type, bytes, bit_len).";
 
 pub fn run(ctx: Ctx) -> i32 {
     let report = Report::new(ctx.clone(), RULE);
@@ -670,7 +677,7 @@ fn handle_dead_workers(report: &Report, bad: &[WorkerOutcome]) {
                     let status = loop {
                         match child.try_wait() {
                             Ok(Some(s)) => break Some(s),
-                            Ok(None) if t0.elapsed().as_secs() > 120 => {
+                            Ok(None) if t0.elapsed().as_secs() > 120 + (case["bytes"].as_str().map(|b| b.len() / 2).unwrap_or(0) / 1000) as u64 => {
                                 let _ = child.kill();
                                 let _ = child.wait();
                                 break None;
